@@ -128,3 +128,26 @@ func (d Direct) GlobalsByName() map[string]tengo.Object {
 	}
 	return m
 }
+
+// ErrBudget is the sentinel a budgeted VM panics with when its step budget is
+// spent; Compiled.RunContext converts it into its return value.
+var ErrBudget = fmt.Errorf("verif: step budget exhausted")
+
+// SetStepBudget makes every VM created from now on (also inside
+// Compiled.Run/RunContext) stop after n dispatched instructions. n <= 0
+// removes the budget. The budget is a harness bound, never a verdict.
+func SetStepBudget(n int64) {
+	if n <= 0 {
+		tengo.VerifNewVM = nil
+		return
+	}
+	tengo.VerifNewVM = func(v *tengo.VM) {
+		var steps int64
+		v.VerifSetProbe(func(v *tengo.VM) {
+			steps++
+			if steps > n {
+				panic(ErrBudget)
+			}
+		})
+	}
+}
